@@ -265,7 +265,7 @@ def gen_prim(rng, kind, mode, c, m=None, size=None):
     if m is None:
         m = lattice_rot(rng) if lat else random_rot(rng)
     if mode == "small":
-        sz = lambda: 10 ** rng.uniform(-2.0, math.log10(0.2)) * 1.0001
+        sz = lambda: 10 ** rng.uniform(-2.0, math.log10(0.06)) * 1.0001
     elif lat:
         sz = lambda: rng.choice(LAT_SIZES)
     elif size:
@@ -517,7 +517,7 @@ def gen_pair(rng, fn, stream=None):
        touch    B is moved so that a (special) point of B coincides with a (special) point of A
        same     both primitives share the reference point and the frame (coincident / nested)
        rotlat   a lattice placement moved by one random rigid motion (nearly degenerate in float)
-       small    sizes log-uniform in [0.01, 0.2] (short segments, tiny triangles ...), general position, centre
+       small    sizes log-uniform in [0.01, 0.06] (short segments, tiny triangles ...), general position, centre
                 offsets of the order of the sizes
        coplanar B is planar (plane, triangle, rectangle, disk, circle): A is built INSIDE B's plane from
                 in-plane points around B (segments / lines cutting corners, passing by, ending inside ...)
@@ -564,7 +564,7 @@ def gen_pair(rng, fn, stream=None):
                 t = [rng.uniform(-5, 5) for _ in range(3)]
                 A, B = rigid(A, Rm, t), rigid(B, Rm, t)
         elif stream == "small":
-            s0 = 10 ** rng.uniform(-2.0, math.log10(0.2))
+            s0 = 10 ** rng.uniform(-2.0, math.log10(0.06))
             o = [rng.uniform(-1, 1) for _ in range(3)]
             A = gen_prim(rng, ka, "small", o)
             dirv = unit([rng.gauss(0, 1) for _ in range(3)])
